@@ -482,6 +482,36 @@ Proof.
     + rewrite bits8_app, F3. rewrite app_assoc, <- E3. rewrite <- !app_assoc. reflexivity.
 Qed.
 
+(* the padding is shorter than a byte *)
+Lemma emit_stuff_pad : forall words pend, (length pend < 8)%nat ->
+  exists bs pad, t81_emit pend words = stuff bs /\ bytes_ok bs /\
+                 bits8 bs = pend ++ concat words ++ pad /\ (length pad < 8)%nat.
+Proof.
+  induction words as [|wd ws IH]; intros pend Hp.
+  - cbn [t81_emit concat]. destruct pend as [|b pend'].
+    + exists [], []. split; [reflexivity|]. split; [constructor|]. split; [reflexivity | simpl; lia].
+    + set (pend := b :: pend') in *.
+      destruct (pack_stuff (pend ++ repeat true (8 - length pend))) as (bs & E1 & E2 & E3).
+      assert (Hs : snd (t81_pack (pend ++ repeat true (8 - length pend))) = []).
+      { assert (L : length (pend ++ repeat true (8 - length pend)) = 8%nat)
+          by (rewrite app_length, repeat_length; lia).
+        remember (pend ++ repeat true (8 - length pend)) as l8.
+        do 8 (destruct l8 as [|? l8]; [simpl in L; lia|]). destruct l8; [|simpl in L; lia].
+        reflexivity. }
+      exists bs, (repeat true (8 - length pend)). split; [exact E1|]. split; [exact E2|].
+      rewrite Hs in E3. rewrite app_nil_r in E3. cbn [app]. split; [symmetry; exact E3|].
+      rewrite repeat_length. unfold pend. cbn [length]. lia.
+  - cbn [t81_emit concat].
+    destruct (pack_stuff (pend ++ wd)) as (bs1 & E1 & E2 & E3).
+    destruct (IH (snd (t81_pack (pend ++ wd)))) as (bs2 & pad & F1 & F2 & F3 & F4).
+    { apply pack_snd_short with (n := length (pend ++ wd)). lia. }
+    exists (bs1 ++ bs2), pad. split; [|split; [|split]].
+    + rewrite E1, F1, stuff_app. reflexivity.
+    + apply bytes_ok_app; assumption.
+    + rewrite bits8_app, F3. rewrite app_assoc, <- E3. rewrite <- !app_assoc. reflexivity.
+    + exact F4.
+Qed.
+
 (* ---------- stuff_unstuff: what the bit writer wrote, the bit reader reads ---------- *)
 Fixpoint write_all (st : wstate) (ws : list (Z * Z)) : list Z :=
   match ws with
